@@ -763,5 +763,32 @@ class RunProp(Prop):
     def features(self, inp, trace):
         return features(inp, trace)
 
+    def enumerate(self, tier):
+        """bounded-exhaustive small scope: every combination of 8 terminal behaviours for setUp / test method / tearDown with
+        0-2 cleanups (5 behaviours each) registered by the test method - i.e. all ordered pairs/triples/... of (kind, stage)"""
+        kinds = ['ret', 'failure', 'exc', 'skip', 'xfail', 'uxs', 'ki', 'multi']
+        ckinds = ['ret', 'failure', 'exc', 'skip', 'ki']
+        tag = [0]
+
+        def term(k):
+            tag[0] += 1
+            if k == 'ret':
+                return 'ret'
+            if k == 'multi':
+                tag[0] += 1
+                return ['raiseMulti', [['failure', tag[0] - 1], ['skip', tag[0]]], [MULTI_CLS, 0]]
+            return ['raise1', [k, tag[0]]]
+        import itertools
+        cleanup_sets = [()] + [(a,) for a in ckinds] + list(itertools.product(ckinds, ckinds))
+        for a in kinds:
+            for b in kinds:
+                for c in kinds:
+                    for cs in cleanup_sets:
+                        tag[0] = 0
+                        acts = [['cleanup', ['stage', 10 + i, [], term(k)]] for i, k in enumerate(cs)]
+                        prog = ['prog', None, False, ['stage', 1, [], term(a)], ['stage', 2, acts, term(b)], ['stage', 3, [], term(c)],
+                                [], 1, [], 'ext']
+                        yield [prog, 1]
+
     def shrink(self, inp):
         return shrink(inp)
